@@ -13,7 +13,7 @@ import numpy as np
 LEVEL = "proof"
 MANIFEST_ENTRY = {
     "category": "proof",
-    "text": "Lean 4 theorems (36, over the reals) about one executable model (generic numeric carrier, run at Float) of BOTH the torch port "
+    "text": "Lean 4 theorems (57, over the reals) about one executable model (generic numeric carrier, run at Float) of BOTH the torch port "
             "(radon_torch, get_fourier_filter_torch, iradon_torch) and the scikit-image reference (radon circle mode, _get_fourier_filter, "
             "iradon linear): the sampling coordinates of the two Radon algorithms coincide for every size >= 2, angle and pixel (grid_sample "
             "normalisation round trip, rotation about N//2), hence every sinogram sample agrees; the six Fourier filters coincide bin by bin "
@@ -25,7 +25,14 @@ MANIFEST_ENTRY = {
             "size is the least power of two >= max(64, 2N), filter/row lengths and output shape are as stated; masking is idempotent; the "
             "sinogram of the image rotated by 90 degrees about (N//2, N//2) is the sinogram shifted by 90 degrees (reference: every N; torch: "
             "odd N, with the even-N mask counterexample); a batched call is the per-image call; the 0-degree projection is the column sum "
-            "of the disc-masked image. The pre-fix conventions (reflected rotation, end-point cosine window, extrapolating "
+            "of the disc-masked image. Growth round: the padded FFT size as a specification (unique; equals max(64, 2^ceil(log2(2N))) with "
+            "integer and real logarithm for ALL N; exact difference set of the bit-length shortcut), the torch and scikit-image filtering "
+            "steps are the same function, and the executable list-DFT step is idft(fft(pad x)*H) over Mathlib's complex numbers; "
+            "scikit-image's literal n array (float bounds, dtype=int) and implicit size check modelled separately — equal to the port for "
+            "every even size incl. size%4==2, both reject every odd size >= 3, size 1 counterexample; the 180-degree projection exactly "
+            "(pure flip for odd N, flip shifted by one bin and one row for even N, both implementations, with the even-size flip "
+            "counterexample); geometry: output size (integer sqrt of N^2/2 for circle=False), diagonal padding, centre alignment of the "
+            "circle-to-square padding, rotation-axis pixel reads bin D//2, back-projection positions stay inside the detector bounds. The pre-fix conventions (reflected rotation, end-point cosine window, extrapolating "
             "interpolant) are kept as legacy definitions with their exact agreement domain and a counterexample each. The model is tied to "
             "the code on every run by Float correspondence with the real torch code and with the real scikit-image (1e-9), and the property "
             "predicate (agreement with scikit-image, batched = single, linearity, 0-degree column sums, forward projection inside "
